@@ -430,8 +430,10 @@ class HttpParser(abc.ABC, Generic[_MsgT]):
 
                         assert self.protocol is not None
                         # calculate payload
+                        # Only a *response* to HEAD has no body whatever its
+                        # headers say; a request is framed by its own headers.
                         empty_body = code in EMPTY_BODY_STATUS_CODES or bool(
-                            method and method in EMPTY_BODY_METHODS
+                            code and method and method in EMPTY_BODY_METHODS
                         )
                         if not empty_body and (
                             (length is not None and length > 0) or msg.chunked
